@@ -15,10 +15,13 @@ import (
 // scans - also for consumers that have gone away (ScanStep) - and the delivery pump registers it
 // in flight before writing it (PumpIteration).
 
-func VerifC01_PublishAck() { verifrt.Atomic(verifC09PubFraming) }
-func VerifC01_MpubAck()    { verifrt.Atomic(verifC09Mpub) }
-func VerifC01_AnswerStep() { verifrt.Atomic(func() { verifAnswerStep(-1) }) }
-func VerifC01_ScanStep()   { verifrt.Atomic(verifScanStep) }
+func VerifC01_PublishAck()   { verifrt.Atomic(verifC09PubFraming) }
+func VerifC01_MpubAck()      { verifrt.Atomic(verifC09Mpub) }
+func VerifC01_HTTPPubAck()   { verifrt.Atomic(verifC10Pub) }
+func VerifC01_HTTPMpubAck()  { verifrt.Atomic(verifC10MpubText) }
+func VerifC01_AnswerVsScan() { verifAnswerVsScan() }
+func VerifC01_AnswerStep()   { verifrt.Atomic(func() { verifAnswerStep(-1) }) }
+func VerifC01_ScanStep()     { verifrt.Atomic(verifScanStep) }
 func VerifC01_PumpIteration() {
 	verifrt.Atomic(func() { verifPumpIteration() })
 }
